@@ -189,3 +189,127 @@ example : (AM.Group.create 100 30 { id := 1, starts := 95, ends := 1000, upd := 
 example : (AM.Group.create 100 30 { id := 1, starts := 10, ends := 1000, upd := 100 }).nextTick = 100 := by decide
 
 end AM.Dedup
+
+namespace AM.Group
+
+/-- The counter follows the map: it equals the number of mapped groups, live or
+    destroyed-and-not-yet-collected; the two lists are duplicate-free and disjoint. -/
+structure GInv (m : GMap) : Prop where
+  cnt  : m.count = m.live.length + m.dead.length
+  ndl  : m.live.Nodup
+  ndd  : m.dead.Nodup
+  disj : ∀ k, k ∈ m.live → k ∉ m.dead
+
+theorem ginv_init : GInv {} := ⟨rfl, List.nodup_nil, List.nodup_nil, fun _ h => by simp at h⟩
+
+theorem ginv_step (limit : Nat) (m : GMap) (o : GOp) (h : GInv m) : GInv (gstep limit m o).1 := by
+  obtain ⟨hc, hl, hd, hdis⟩ := h
+  cases o with
+  | ingest k =>
+    unfold gstep
+    by_cases h1 : m.live.contains k = true
+    · simp only [h1, if_true]; exact ⟨hc, hl, hd, hdis⟩
+    · have hk : k ∉ m.live := by simpa using h1
+      simp only [h1, Bool.false_eq_true, if_false]
+      by_cases h2 : limit > 0 ∧ m.count ≥ limit
+      · simp only [h2, and_self, if_true]; exact ⟨hc, hl, hd, hdis⟩
+      · simp only [h2, if_false]
+        by_cases h3 : m.dead.contains k = true
+        · have hkd : k ∈ m.dead := by simpa using h3
+          simp only [h3, if_true]
+          refine ⟨?_, List.nodup_cons.mpr ⟨hk, hl⟩, hd.erase k, ?_⟩
+          · simp only [List.length_cons, List.length_erase_of_mem hkd]
+            have : 0 < m.dead.length := List.length_pos_of_mem hkd
+            omega
+          · intro x hx
+            simp only [List.mem_cons] at hx
+            rcases hx with rfl | hx
+            · exact fun hmem => (List.Nodup.mem_erase_iff hd).mp hmem |>.1 rfl
+            · exact fun hmem => hdis x hx (List.mem_of_mem_erase hmem)
+        · have hkd : k ∉ m.dead := by simpa using h3
+          simp only [h3, Bool.false_eq_true, if_false]
+          refine ⟨by simp only [List.length_cons]; omega, List.nodup_cons.mpr ⟨hk, hl⟩, hd, ?_⟩
+          intro x hx
+          simp only [List.mem_cons] at hx
+          rcases hx with rfl | hx
+          · exact hkd
+          · exact hdis x hx
+  | destroy k =>
+    unfold gstep
+    by_cases h1 : m.live.contains k = true
+    · have hk : k ∈ m.live := by simpa using h1
+      simp only [h1, if_true]
+      refine ⟨?_, hl.erase k, List.nodup_cons.mpr ⟨hdis k hk, hd⟩, ?_⟩
+      · simp only [List.length_cons, List.length_erase_of_mem hk]
+        have : 0 < m.live.length := List.length_pos_of_mem hk
+        omega
+      · intro x hx hmem
+        simp only [List.mem_cons] at hmem
+        rcases hmem with rfl | hmem
+        · exact ((List.Nodup.mem_erase_iff hl).mp hx).1 rfl
+        · exact hdis x (List.mem_of_mem_erase hx) hmem
+    · simp only [h1, Bool.false_eq_true, if_false]; exact ⟨hc, hl, hd, hdis⟩
+  | maintain =>
+    unfold gstep
+    exact ⟨by simp only [List.length_nil]; omega, hl, List.nodup_nil, fun _ _ h => by simp at h⟩
+
+theorem ginv_run (limit : Nat) (ops : List GOp) (m : GMap) (h : GInv m) : GInv (grun limit ops m) := by
+  unfold grun
+  induction ops generalizing m with
+  | nil => exact h
+  | cons o rest ih => exact ih _ (ginv_step limit m o h)
+
+/-- **Admitted under the group limit.**  In every reachable state an alert is
+    refused a group exactly when it needs a new group and the map really holds
+    `limit` groups (live, or destroyed and not yet collected); re-creating a group
+    over its destroyed predecessor never uses up the limit (the counter does not
+    leak), and the counter never exceeds the limit. -/
+theorem refused_iff_map_full (limit : Nat) (ops : List GOp) (k : String) :
+    let m := grun limit ops {}
+    ((gstep limit m (.ingest k)).2 = false ↔
+      (k ∉ m.live ∧ limit > 0 ∧ m.live.length + m.dead.length ≥ limit)) := by
+  intro m
+  have hinv := ginv_run limit ops {} ginv_init
+  unfold gstep
+  by_cases h1 : m.live.contains k = true
+  · have : k ∈ m.live := by simpa using h1
+    simp [h1, this]
+  · have hk : k ∉ m.live := by simpa using h1
+    simp only [h1, Bool.false_eq_true, if_false]
+    by_cases h2 : limit > 0 ∧ m.count ≥ limit
+    · have hge : m.live.length + m.dead.length ≥ limit := by rw [← hinv.cnt]; exact h2.2
+      have hgoal : k ∉ m.live ∧ limit > 0 ∧ m.live.length + m.dead.length ≥ limit := ⟨hk, h2.1, hge⟩
+      simp only [h2, and_self, if_true, true_iff]
+      exact ⟨hgoal.1, trivial, hgoal.2.2⟩
+    · simp only [h2, if_false]
+      have : ¬ (k ∉ m.live ∧ limit > 0 ∧ m.live.length + m.dead.length ≥ limit) := by
+        intro ⟨_, hp, hge⟩; exact h2 ⟨hp, by rw [hinv.cnt]; exact hge⟩
+      split <;> simp [this]
+
+theorem count_step_le (limit : Nat) (hl : 0 < limit) (m : GMap) (o : GOp) (h : m.count ≤ limit) :
+    (gstep limit m o).1.count ≤ limit := by
+  cases o with
+  | ingest k =>
+    by_cases h1 : k ∈ m.live
+    · simp [gstep, h1, h]
+    · by_cases h2 : limit ≤ m.count
+      · simp [gstep, h1, h2, hl, h]
+      · by_cases h3 : k ∈ m.dead
+        · simp [gstep, h1, h2, h3, h]
+        · simp only [gstep, List.contains_eq_mem, h1, h2, h3, decide_false, Bool.false_eq_true, if_false, and_false, ge_iff_le]
+          omega
+  | destroy k =>
+    by_cases h1 : k ∈ m.live <;> simp [gstep, h1, h]
+  | maintain => simp only [gstep]; omega
+
+theorem count_le_limit (limit : Nat) (hl : 0 < limit) (ops : List GOp) :
+    (grun limit ops {}).count ≤ limit := by
+  suffices h : ∀ (m : GMap), m.count ≤ limit → (grun limit ops m).count ≤ limit from h {} (by simp)
+  unfold grun
+  induction ops with
+  | nil => intro m h; exact h
+  | cons o rest ih => intro m h; exact ih _ (count_step_le limit hl m o h)
+
+example : (grun 2 [.ingest "a", .destroy "a", .ingest "a", .destroy "a", .ingest "a", .ingest "b"] {}).live = ["b", "a"] := by decide
+
+end AM.Group
